@@ -50,7 +50,8 @@ func runSolver(ctx context.Context, sd solverDef, file string, timeoutS int) Sol
 	hadErr := false
 	for _, l := range strings.Split(out.String(), "\n") {
 		l = strings.TrimSpace(l)
-		if l == "" {
+		if l == "" || strings.HasPrefix(l, "WARNING:") {
+			// z3 prints pattern warnings (a trigger that mentions a defined ite term) before the answer
 			continue
 		}
 		if strings.HasPrefix(l, "(error") && first == "" {
